@@ -82,8 +82,6 @@ def solve(res, name, assertions, timeout_ms=30000, want_model=True, logic=None, 
     Returns (verdict, model).  verdict in 'sat' | 'unsat' | 'unknown'."""
     import z3
     t0 = time.time()
-    s = z3.SolverFor(logic) if logic else (z3.Tactic(tactic).solver() if tactic else z3.Solver())
-    s.set("timeout", int(timeout_ms))
     flat = []
     for a in assertions:
         if isinstance(a, (list, tuple)):
@@ -91,6 +89,15 @@ def solve(res, name, assertions, timeout_ms=30000, want_model=True, logic=None, 
         else:
             flat.append(a)
     flat = [a for a in flat if not (isinstance(a, bool) and a)]
+    if logic is None and tactic is None and sum(1 for a in flat if isinstance(a, z3.ExprRef) and z3.is_eq(a)) >= 8:
+        # many top-level equalities (symmetry / sum-rule assumptions): eliminate them first (Gaussian elimination by the
+        # solve-eqs tactic) - the same query took 76 s with the default solver and 0.4 s this way
+        tactic = "solve-eqs"
+    if tactic == "solve-eqs":
+        s = z3.Then("simplify", "solve-eqs", "smt").solver()
+    else:
+        s = z3.SolverFor(logic) if logic else (z3.Tactic(tactic).solver() if tactic else z3.Solver())
+    s.set("timeout", int(timeout_ms))
     if any(isinstance(a, bool) and not a for a in flat):
         verdict, model = "unsat", None
     else:
